@@ -666,6 +666,12 @@ const EFFECTS: &[Effect] = &[
     Effect { name: "malformed-define", line: "#define 1", in_header: false },
     Effect { name: "malformed-undef", line: "#undef 1 2", in_header: false },
     Effect { name: "malformed-include", line: "#include foo", in_header: false },
+    // text lines that cannot be macro-expanded: in an unselected branch they are never expanded
+    Effect { name: "text-macro-wrong-arity", line: "FN(1, 2);", in_header: false },
+    Effect { name: "text-macro-no-arguments", line: "FN();FN(,);", in_header: false },
+    Effect { name: "text-macro-unterminated-arguments", line: "FN(1,", in_header: false },
+    Effect { name: "text-macro-bad-paste", line: "PASTE(;) PASTE(.);", in_header: false },
+    Effect { name: "text-macro-nested-wrong-arity", line: "FN(FN(1, 2));", in_header: false },
 ];
 
 fn check_effect(ctx_lines: &[&str], active: bool, depth: usize, e: &Effect, acc: &mut Acc) {
@@ -683,7 +689,7 @@ fn check_effect(ctx_lines: &[&str], active: bool, depth: usize, e: &Effect, acc:
     let (main, header) = if e.in_header {
         ("#define D 1\n#include \"h\"\n#include \"h\"\nm;\n".to_string(), format!("{}h;\n", body))
     } else {
-        (format!("#define D 1\n{}m;\n", body), String::new())
+        (format!("#define D 1\n#define FN(x) [x]\n#define PASTE(a) a ## +\n{}m;\n", body), String::new())
     };
     let replay = format!("kind: effect\n{}\n{}", e.name, ctx_lines.join("\n"));
     let r = guard(|| {
@@ -697,6 +703,14 @@ fn check_effect(ctx_lines: &[&str], active: bool, depth: usize, e: &Effect, acc:
         Err(p) => acc.violation(Violation { signature: p.signature(), detail: format!("[{}] {} panicked: {}", ctx, e.line, p.message), replay }),
         Ok(res) => {
             let verdict: Result<(), String> = match (e.name, &res) {
+                (n, Ok(out)) if n.starts_with("text-") => {
+                    // skipped text contributes nothing; selected text is outside this part (C12 compares expansions)
+                    let only_m = out.lines().map(|l| l.trim()).filter(|l| !l.is_empty()).all(|l| l == "m;");
+                    if active || only_m { Ok(()) } else { Err(format!("text of an unselected branch reaches the output: {:?}", out)) }
+                }
+                (n, Err(err)) if n.starts_with("text-") => {
+                    if active { Ok(()) } else { Err(format!("rejected although the text is in an unselected branch: {:?}", err)) }
+                }
                 ("include", Ok(out)) => {
                     let has = out.lines().any(|l| l.trim() == "i;");
                     if has == active { Ok(()) } else { Err(format!("included text present={} but branch active={}", has, active)) }
